@@ -6,6 +6,7 @@ decrypters per group   loadDecrypters_fingerprints, foreign_fingerprint_has_no_d
                        rest_signed_route_rejects_key_of_another_group
 options                authOptions_prev_last_wins, authOptions_callback_irrelevant, authOptions_no_prev,
                        authorize_with_options_runs_iff, overridden_prev_secret_is_refused
+both gates             rest_route_behind_both_gates_needs_both
 fail closed            unloadable_key_binds_nothing, loadDecrypters_fails_on_any_unloadable_key, verifierFor_ok
 rest monitor           rest_monitor_sound, authorize_ctx_forwarded
 converse               cs_complete_monitor_sound, csCovers_verifies, cryptionHandler_not_403, jwt_complete_monitor_sound, jwt_valid_credential_runs_handler, rest_valid_request_reaches_handler
@@ -464,6 +465,44 @@ example : restServe (V := String) { jwt := true } ["use0"] ["cm0", authorizeName
     { ran := false, status := 401, ctx := [], usesRan := 0 } := by decide
 example : restServe (V := String) { jwt := true } ["use0"] ["cm0", authorizeName, "use0"] { ran := true, status := 200, ctx := [("uid", "1")] } none =
     { ran := true, status := 200, ctx := [("uid", "1")], usesRan := 1 } := by decide
+
+/-! ## a route behind BOTH gates -/
+
+/-- END TO END over the whole configuration space: a route registered with a jwt option AND `WithSignature` (strict, with
+keys) — any order of the options, any other options, any base chain (`WithChain` or native under every switch setting), any
+`Server.Use` middlewares — runs its handler only for a request that carries BOTH a valid token and a signature that covers
+it (checked method, no X-Request-Uri). -/
+theorem rest_route_behind_both_gates_needs_both {V : Type} (custom : Option (List String)) (m : MwConf)
+    (opts : List RouteOption) (uses chn : List String) (f : TokenFacts V) (now : Int) (h : Hist) (secret prev : String)
+    (clock : Int) (C : BlockCipher) (env : CsEnv) (cfg : CsCfg) (req : CsReq) (inner : Inner) (others : String → Option Nat)
+    (hopt : RouteOption.withJwt ∈ opts ∨ ∃ b, RouteOption.withJwtTransition b ∈ opts)
+    (hs : (applyOptions opts).sig = true) (hk : (applyOptions opts).sigKeys = true)
+    (hstrict : cfg.strict = true) (hg : gatedMethods.contains req.method = true) (hu : req.uri = "")
+    (hb : bindRoute custom m (applyOptions opts) uses = some chn)
+    (hran : (runChain (fun n => if n = authorizeName then authVerdict (authorize (jwtVerify f now) h secret prev clock).2
+                                else if n = contentSecurityName then respVerdict (contentSecurity C env cfg req inner)
+                                else others n) chn).ran = true) :
+    credentialOk f now secret prev = true ∧ csCovers env cfg req = true := by
+  constructor
+  · exact rest_jwt_route_runs_only_with_valid_credential custom m opts uses chn f now h secret prev clock
+      (fun n => if n = contentSecurityName then respVerdict (contentSecurity C env cfg req inner) else others n) hopt hb hran
+  · have hne : contentSecurityName ≠ authorizeName := by decide
+    have hfun : (fun n => if n = authorizeName then authVerdict (authorize (jwtVerify f now) h secret prev clock).2
+                          else if n = contentSecurityName then respVerdict (contentSecurity C env cfg req inner)
+                          else others n)
+        = (fun n => if n = contentSecurityName then respVerdict (contentSecurity C env cfg req inner)
+                    else (fun k => if k = authorizeName then authVerdict (authorize (jwtVerify f now) h secret prev clock).2
+                                   else others k) n) := by
+      funext n
+      by_cases h1 : n = contentSecurityName
+      · subst h1; simp [hne]
+      · simp [h1]
+    rw [hfun] at hran
+    exact rest_signed_route_runs_only_with_covering_signature custom m opts uses chn C env cfg req inner _ hs hk hstrict hg hu hb hran
+
+example : bindRoute (some ["cm0"]) ⟨true, true, true, true, true, true, true, true, true, true, true⟩
+    (applyOptions [.withSignature true true, .other, .withJwtTransition false]) ["use0"] =
+    some ["cm0", authorizeName, contentSecurityName, "use0"] := by decide
 
 /-! ## configuration errors fail closed -/
 
